@@ -638,6 +638,67 @@ func (s *seqRun) doWrite(slot int, rv *rview) {
 	s.tag["view-write"] = true
 }
 
+// doShadow: a Delete of a key that exists in NONE of the view's layers, through a descendant view, then the same key
+// written through the view it descends from: the delete is a write of the descendant like any other — it stays in its
+// change set and keeps hiding the key from the descendant whatever the ancestors get later
+func (s *seqRun) doShadow(slot int, rv *rview) bool {
+	if rv.parent == nil || rv.sub != nil || rv.parent.sub != nil {
+		return false
+	}
+	pslot := -1
+	for sl, v := range s.views {
+		if v == rv.parent {
+			pslot = sl
+		}
+	}
+	if pslot < 0 {
+		return false
+	}
+	c := rv.content()
+	var k []byte
+	for try := 0; try < 20; try++ {
+		k = genKey(s.rng)
+		if _, ok := c[string(k)]; !ok {
+			break
+		}
+		k = nil
+	}
+	if k == nil {
+		return false
+	}
+	rv.v.Delete(k)
+	rv.write(k, nil)
+	s.op(Con("OVDel", I64(int64(slot)), Byt(k)), Con("AUnit"))
+	if s.rng.Intn(3) != 0 {
+		v := genVal(s.rng)
+		rv.parent.v.Put(k, v)
+		rv.parent.write(k, v)
+		s.op(Con("OVPut", I64(int64(pslot)), Byt(k), Byt(v)), Con("AUnit"))
+	}
+	// the descendant: lookup, presence, scan, change set
+	cc := rv.content()
+	got, err := rv.v.Get(k)
+	found := err == nil
+	s.op(Con("OVGet", I64(int64(slot)), Byt(k)), Con("AOpt", valOpt(canonVal(k, got), found)))
+	_, want := cc[string(k)]
+	s.out.Oracle(found == want, "view-get-exact", M{"key": fmt.Sprintf("%x", k), "got_found": found, "want_found": want, "after": "delete of an absent key through this view, then a write of it through its ancestor"})
+	h, _ := rv.v.Has(k)
+	s.op(Con("OVHas", I64(int64(slot)), Byt(k)), Con("ABool", h))
+	s.out.Oracle(h == want, "view-has-exact", M{"key": fmt.Sprintf("%x", k), "got": h, "want": want, "after": "delete of an absent key through this view"})
+	s.doChanges(slot, rv)
+	// the change set holds the delete: replayed on a state that HAS the key it removes it
+	p, perr := rv.v.Changes()
+	if perr == nil && p != nil {
+		inSet := false
+		for _, o := range patchOps(p) {
+			inSet = inSet || (bytes.Equal(o.k, k) && o.del)
+		}
+		s.out.Oracle(inSet, "changes-hold-every-write-of-the-view", M{"key": fmt.Sprintf("%x", k), "write": "delete of a key absent below"})
+	}
+	s.tag["delete-of-absent-key"] = true
+	return true
+}
+
 func (s *seqRun) doSub(slot int, rv *rview, nslot int) {
 	c := rv.content()
 	var p []byte
@@ -762,7 +823,9 @@ func runSeq(rng *rand.Rand, out *Out, steps int, mode string) {
 			}
 		case x < 62:
 			if sl, rv := s.pickSlot(); rv != nil {
-				s.doWrite(sl, rv)
+				if rng.Intn(4) != 0 || !s.doShadow(sl, rv) {
+					s.doWrite(sl, rv)
+				}
 			}
 		case x < 68:
 			if sl, rv := s.pickSlot(); rv != nil {
